@@ -1042,6 +1042,11 @@ fn oracle(w: &DlWorld) -> Vec<(String, String)> {
                 }
             }
         }
+        // --- a runtime that has ended (for whatever reason: stop, unlinked, a bad frame it aborts on)
+        // has told every consumer it had linked that the link is gone
+        if !w.subject.alive() && c.dropped_at.is_none() && c.rx.is_some() && seen_linked && !seen_unlinked {
+            add(format!("dl({}): the runtime ended but a linked consumer was never told unlinked", k), format!("consumer {}: notes {:?}", ci, c.notes));
+        }
         if let Some(us) = w.sock.unlinked_sent {
             if c.dropped_at.is_none() && quiescent && att_step < us && !seen_unlinked && !w.subject.alive() {
                 add(format!("dl({}): consumer not told unlinked when the link closed", k), format!("consumer {}", ci));
@@ -1371,6 +1376,12 @@ pub fn run_main() {
                 for mode in [Mode::Eager, Mode::Burst, Mode::SlowRead] {
                     cfgs.push(Cfg { kind: Kind::Map, script: script.clone(), consumers: *consumers, remote_buf, dl_buf, sock_credit: if remote_buf == 16 { 5 } else { 0 }, budget: 64, mode, ticks: 0, no_final_stop: false, seed: 0, ignore_bad: true });
                 }
+            }
+        }
+        // ... and with the strategy that aborts: the runtime ends, and says so to its consumers
+        for (script, consumers) in scripts.iter().take(2) {
+            for mode in [Mode::Eager, Mode::SlowRead] {
+                cfgs.push(Cfg { kind: Kind::Map, script: script.clone(), consumers: *consumers, remote_buf: 4096, dl_buf: 4096, sock_credit: 0, budget: 64, mode, ticks: 0, no_final_stop: false, seed: 0, ignore_bad: false });
             }
         }
         run_cfgs(&ctx, "dl-map-bad-frames-d1", cfgs, 1, 20_000, if quick { 6.0 } else { 300.0 });
